@@ -26,6 +26,7 @@ func checkC03(p *Prog, res *Result, tier string) {
 	res.rule("C03-R8", "a key-value handed to a result receiver is one stored record: key, value and revision are all three of the record under the iterator, or all three loop-carried copies of the previous record", 2)
 	res.rule("C03-R9", "the scan reads to the end of its partition: engine iterators of the scanner are opened with the constant record limit 0, and the end of the data is io.EOF itself (==), not an error that wraps it", 2)
 	res.rule("C03-R10", "Count agrees with Range: the scan worker increments the count it returns exactly where it appends a key to the receiver (nothing decides between the two)", 2)
+	res.rule("C03-R12", "in a reading scan every record that passed the revision filter becomes the worker's 'previous record': a way back to the loop head that keeps the carried record is taken only for undecodable keys, expired records, revisions above the read revision, or under the compaction flag", 3)
 	res.rule("C03-R11", "no record of a key's history expires on its own except the classified Event create (C17-R5): a deletion marker that the engine removes before the version it hides brings a deleted key back", 8)
 	res.rule("C03-R4", "scan attempts start from an empty receiver; partition borders stay contiguous; a failed partition fails the read (C13-R5/R6/R8)", 5)
 
@@ -305,6 +306,7 @@ func checkC03(p *Prog, res *Result, tier string) {
 	// ---- R9: the scan reads to the end of its partition ----
 	checkScanIteratorUnbounded(p, r, res, "C03-R9")
 	checkCountMatchesAppends(p, res, "C03-R10")
+	checkCarriedRecordAdvances(p, r, res, "C03-R12")
 	// a read sees a deletion for as long as it sees the version the deletion hides: deletion markers and index records
 	// are written without an engine TTL (C17-R5)
 	for _, o := range p.subResult("C17", tier).Obls {
@@ -668,5 +670,115 @@ func checkCountMatchesAppends(p *Prog, res *Result, rule string) {
 	}
 	if n == 0 {
 		res.und(rule, "scan worker: count", "-", "no function of the scanner returns a count that it increments next to receiver.append")
+	}
+}
+
+// checkCarriedRecordAdvances (C03-R12): the scan worker decides what to do with a record when it sees the next one, so
+// it carries "the previous record" from one iteration to the next. In a reading scan every record that passed the
+// revision filter must become that previous record: a way back to the loop head that leaves the carried record as it
+// was is taken only where the key did not decode, where the expiry helper said "expired", where the record's revision
+// is above the read revision, or under the compaction flag. (A `continue` that a reading scan can take elsewhere makes
+// the worker compare the next key with a record two steps back: the visible key before a later-deleted one is
+// returned twice.)
+func checkCarriedRecordAdvances(p *Prog, r *Roles, res *Result, rule string) {
+	appendM := p.ifaceMethod("pkg/backend/scanner", "resultReceiver", "append")
+	sp := p.ssaPkg("pkg/backend/scanner")
+	n := 0
+	for _, f := range p.AllFuncs {
+		if f.Pkg != sp || f.Blocks == nil {
+			continue
+		}
+		var carried *ssa.Phi
+		var dc *ssa.Call
+		for _, c := range callsIn(f) {
+			if c.Common().IsInvoke() && c.Common().Method == appendM && len(c.Common().Args) >= 3 {
+				if phi, ok := resolve(c.Common().Args[2]).(*ssa.Phi); ok && loopOf(phi.Block()) != nil {
+					carried = phi
+				}
+			}
+			if cc, ok := c.(*ssa.Call); ok && r.is(c, r.Decode) {
+				dc = cc
+			}
+		}
+		if carried == nil || dc == nil {
+			continue
+		}
+		lp := loopOf(carried.Block())
+		exs := extractsOf(dc)
+		excused := func(cf condFact) bool {
+			// (iv) the compaction flag
+			if ld, ok := resolve(cf.Raw).(*ssa.UnOp); ok && ld.Op == token.MUL && cf.Want {
+				if fa, ok := ld.X.(*ssa.FieldAddr); ok {
+					if bt, ok := fieldOf(fa).Type().Underlying().(*types.Basic); ok && bt.Kind() == types.Bool {
+						return true
+					}
+				}
+			}
+			// (ii) a helper of the package that answered true (expired)
+			if ex, ok := resolve(cf.Raw).(*ssa.Extract); ok && cf.Want {
+				if c, ok := ex.Tuple.(*ssa.Call); ok && c.Common().StaticCallee() != nil && c.Common().StaticCallee().Pkg == sp {
+					return true
+				}
+			}
+			if cf.Call != nil && cf.Want && cf.Call.Common().StaticCallee() != nil && cf.Call.Common().StaticCallee().Pkg == sp {
+				return true
+			}
+			if cf.X == nil {
+				return false
+			}
+			x, y := resolve(cf.X), resolve(cf.Y)
+			// (i) the key did not decode
+			if len(exs) > 2 && exs[2] != nil && x == ssa.Value(exs[2]) && isNilConst(y) && ((cf.Op == token.NEQ && cf.Want) || (cf.Op == token.EQL && !cf.Want)) {
+				return true
+			}
+			// (iii) above the read revision
+			if len(exs) > 1 && exs[1] != nil && x == ssa.Value(exs[1]) && ((cf.Op == token.GTR && cf.Want) || (cf.Op == token.LEQ && !cf.Want)) {
+				if ld, ok := y.(*ssa.UnOp); ok && ld.Op == token.MUL {
+					if _, ok := ld.X.(*ssa.FieldAddr); ok {
+						return true
+					}
+				}
+			}
+			return false
+		}
+		k := 0
+		for i, pred := range carried.Block().Preds {
+			if !lp[pred] {
+				continue
+			}
+			if resolve(carried.Edges[i]) != ssa.Value(carried) {
+				continue // the record advances on this way back
+			}
+			k++
+			n++
+			construct := fmt.Sprintf("%s: way back to the loop head #%d that keeps the carried record", funcName(f), k)
+			facts := dominatingFacts(pred)
+			if ifOf(pred) != nil {
+				for si, sc := range pred.Succs {
+					if sc == carried.Block() && pred.Succs[1-si] != carried.Block() {
+						facts = append(facts, expandFact(edgeFact(edge{pred, si}), 0)...)
+					}
+				}
+			}
+			ok := false
+			for _, cf := range facts {
+				if excused(cf) {
+					ok = true
+				}
+			}
+			at := firstPositioned(pred)
+			pos := "-"
+			if at != nil {
+				pos = p.pos(at.Pos())
+			}
+			if ok {
+				res.ok(rule, construct, pos, "undecodable key, expired record, revision above the read revision, or compaction only")
+			} else {
+				res.bad(rule, construct, pos, "a reading scan can go on to the next record without making the current one the 'previous record' (the way back is not limited to undecodable keys, expired records, revisions above the read revision or compaction): the next key is compared with a record two steps back, and the visible key before it is appended twice - a range read at an older revision returns a key twice, a limited one cuts at the wrong place")
+			}
+		}
+	}
+	if n == 0 {
+		res.und(rule, "scan worker: carried record", "-", "no loop-carried record that is appended to the receiver found")
 	}
 }
